@@ -230,13 +230,29 @@ func check(c *pruneCase, o *vk.Obs) []string {
 		switch {
 		case pruneFromMode:
 			w = wantPruneFrom(fr, pf)
-			// signature of the recorded finding: an inlined location with the match above its innermost line
-			// occurs in this sample (it is trimmed in place wherever it occurs)
-			for _, l := range s.Location {
+			// signature of the recorded finding (in-place trimming): PruneFrom cuts, in every sample, the
+			// lines of a location that lie leaf-side of the location's innermost match. That is what the
+			// statement asks for only at the sample's lowest matching location; the finding applies when a
+			// location that gets trimmed (innermost match above its innermost line) occurs in this sample
+			// on the root side of the sample's lowest matching location.
+			lowest := -1 // index into s.Location (leaf first) of the lowest matching location
+			inner := func(l *profile.Location) int {
 				for i, ln := range l.Line {
-					if i > 0 && ln.Function.Name != "" && pf.MatchString(simplify(ln.Function.Name)) {
-						sig = true
+					if ln.Function.Name != "" && pf.MatchString(simplify(ln.Function.Name)) {
+						return i
 					}
+				}
+				return -1
+			}
+			for j, l := range s.Location {
+				if inner(l) >= 0 {
+					lowest = j
+					break
+				}
+			}
+			for j, l := range s.Location {
+				if lowest >= 0 && j > lowest && inner(l) > 0 {
+					sig = true
 				}
 			}
 		case drop != nil:
@@ -248,19 +264,7 @@ func check(c *pruneCase, o *vk.Obs) []string {
 			if len(fr) > 0 && fr[0].HasFn && fr[0].Name != "" && drop.MatchString(simplify(fr[0].Name)) {
 				rootMatch = true
 			}
-			// signature: a multi-line location of this sample has a matching line (locations are
-			// decided and trimmed as a whole)
-			for _, l := range s.Location {
-				if len(l.Line) < 2 {
-					continue
-				}
-				for _, ln := range l.Line {
-					n := simplify(ln.Function.Name)
-					if ln.Function.Name != "" && drop.MatchString(n) && (keep == nil || !keep.MatchString(n)) {
-						sig = true
-					}
-				}
-			}
+			sig = pruneSig(s, drop, keep)
 		}
 		if len(w) != len(fr) {
 			anyCut = true
@@ -357,4 +361,149 @@ func check(c *pruneCase, o *vk.Obs) []string {
 func TestPropPrune(t *testing.T) {
 	vk.Main(t, vk.Spec[pruneCase]{ID: "C11", Facet: "prune", Quick: 15000, Thorough: 60000, Gen: genCase, Check: check, Journal: true,
 		Rule: "generated profiles whose function names come from a pool built to interact with name simplification (.foo, foo(int), (anonymous namespace), operator(), runtime.*) x drop/keep/prune_from expressions built from the same names (literals, 2- and 3-way alternations, prefix.*, .*suffix, invalid) x entry point (RemoveUninteresting, Prune, driver with drop_frames, PruneFrom, driver -prune_from); oracle: frame-level reference model written from the statement + frame conditions (sample count, values, labels, untouched without expressions, never empty); non-trivial = the rule removes frames from some sample and leaves another untouched"})
+}
+
+// pruneSig: signature of the recorded finding C11-prune-location-granularity. Prune decides per location
+// and trims a location's lines in place. Frame by frame that is what the statement asks for whenever the
+// location comes after a location without any match (a "user" location); the finding applies when a
+// multi-line location with a matching line occurs in the sample before (root side of) the first location
+// that has no match - it is trimmed although no pruning happens there, and its non-matching outer lines
+// are not counted as user frames.
+func pruneSig(s *profile.Sample, drop, keep *regexp.Regexp) bool {
+	hasMatch := func(l *profile.Location) bool {
+		for _, ln := range l.Line {
+			n := simplify(ln.Function.Name)
+			if ln.Function.Name != "" && drop.MatchString(n) && (keep == nil || !keep.MatchString(n)) {
+				return true
+			}
+		}
+		return false
+	}
+	for j := len(s.Location) - 1; j >= 0; j-- { // root first
+		l := s.Location[j]
+		if !hasMatch(l) {
+			break
+		}
+		if len(l.Line) >= 2 {
+			return true
+		}
+	}
+	return false
+}
+
+// ---- facet merged: drop/keep expressions must survive the merge that precedes pruning ----
+
+// checkMerged gives the driver the same profile twice: the sources are merged first and the merged
+// profile is pruned with the drop/keep expressions it inherited. Expected: every stack pruned as the
+// reference model says, every value doubled.
+func checkMerged(c *pruneCase, o *vk.Obs) []string {
+	var e vk.Errs
+	gp := *c.P
+	gp.DropFrames, gp.KeepFrames = c.Drop, c.Keep
+	p := gp.Build().Copy()
+	if c.Drop == "" {
+		return nil
+	}
+	drop, err := anchored(c.Drop)
+	if err != nil {
+		return nil
+	}
+	var keep *regexp.Regexp
+	if c.Keep != "" {
+		if keep, err = anchored(c.Keep); err != nil {
+			return nil
+		}
+	}
+	want := map[string][]int64{}
+	cut, both := false, false
+	for _, s := range p.Sample {
+		if pruneSig(s, drop, keep) {
+			if vk.Known("C11-prune-location-granularity") {
+				o.Exclude("C11-prune-location-granularity")
+				return nil
+			}
+		}
+		fr := framesRootFirst(s)
+		w, _ := wantPrune(fr, drop, keep)
+		if len(w) != len(fr) {
+			cut = true
+		}
+		for _, f := range fr {
+			n := simplify(f.Name)
+			if f.HasFn && f.Name != "" && keep != nil && drop.MatchString(n) && keep.MatchString(n) {
+				both = true
+			}
+		}
+		k := mkey(w) + " " + model.LabelString(s, true)
+		if want[k] == nil {
+			want[k] = make([]int64, len(s.Value))
+		}
+		for i, v := range s.Value {
+			want[k][i] += 2 * v
+		}
+	}
+	o.LabelIf(both, "frame-matching-drop-and-keep")
+	o.NonTrivial = cut
+	res := pp.Run(pp.Req{Flags: map[string]string{"proto": "true", "output": "out"}, Args: []string{"src", "src2"}, Sources: map[string]*pp.Source{"src": {Prof: p}, "src2": {Prof: p}}})
+	if res.Panic != "" {
+		return []string{"pprof panicked: " + res.Panic}
+	}
+	if res.Err != nil {
+		e.Addf("pprof -proto of two sources failed: %v", res.Err)
+		return e
+	}
+	out, err := profile.ParseData([]byte(res.Out("out")))
+	if err != nil {
+		return []string{"pprof -proto output does not parse: " + err.Error()}
+	}
+	got := map[string][]int64{}
+	for _, s := range out.Sample {
+		k := mkey(framesRootFirst(s)) + " " + model.LabelString(s, true)
+		if got[k] == nil {
+			got[k] = make([]int64, len(s.Value))
+		}
+		for i, v := range s.Value {
+			got[k][i] += v
+		}
+	}
+	zero := func(v []int64) bool {
+		for _, x := range v {
+			if x != 0 {
+				return false
+			}
+		}
+		return true
+	}
+	for k, v := range want {
+		if zero(v) {
+			continue
+		}
+		if fmt.Sprint(got[k]) != fmt.Sprint(v) {
+			e.Addf("two merged sources, drop=%q keep=%q: stack %s should carry %v after pruning, got %v", c.Drop, c.Keep, k, v, got[k])
+		}
+	}
+	for k, v := range got {
+		if _, ok := want[k]; !ok && !zero(v) {
+			e.Addf("two merged sources, drop=%q keep=%q: unexpected stack %s with %v", c.Drop, c.Keep, k, v)
+		}
+	}
+	return e
+}
+
+func TestPropMerged(t *testing.T) {
+	vk.Main(t, vk.Spec[pruneCase]{ID: "C11", Facet: "merged", Quick: 3000, Thorough: 15000, Gen: genCase, Check: checkMerged, Journal: true,
+		Rule: "the prune generator's profiles carrying drop_frames / keep_frames, given to the driver twice as two sources (merge first, then pruning with the inherited expressions), read back through -proto; oracle: every stack pruned as the frame-level reference model says, every value doubled (compared as stack+labels -> summed values); non-trivial = the rule removes at least one frame"})
+}
+
+// mkey renders frames without addresses (merging rebases the addresses of unsymbolized frames; that is C03's subject).
+func mkey(fr []frame) string {
+	var b []string
+	for _, f := range fr {
+		if !f.HasFn {
+			b = append(b, "<unsymbolized>")
+			continue
+		}
+		b = append(b, fmt.Sprintf("%q/%q:%d", f.Name, f.File, f.Line))
+	}
+	return strings.Join(b, " > ")
 }
